@@ -534,6 +534,45 @@ func racePrograms() []sig.RaceProgram {
 				}
 				return fmt.Sprintf("live%d/replay%d", live, rep), nil
 			}},
+		{Name: "full-history-chat-vs-join", Groups: groups, Clients: 3, Setup: func(w *sig.World) {
+			joined(w)
+			for k := 0; k < 50; k++ {
+				w.Send(1, sig.Msg{"type": "chat", "source": "c1", "username": "bob", "value": fmt.Sprintf("m%02d", k)})
+			}
+		}, MaxPreempt: core.Pick(1, 2),
+			Names: []string{"c0:chat", "c2:join+replay"},
+			Threads: []func(w *sig.World){
+				func(w *sig.World) {
+					w.Send(0, sig.Msg{"type": "chat", "source": "c0", "username": "alice", "value": "m50"})
+				},
+				func(w *sig.World) { w.Send(2, sig.Join("g", "carol", "pc")); drain(w, 2) },
+			},
+			Final: func(w *sig.World) (string, *core.Violation) {
+				// the replay is an in-order run of consecutive messages without
+				// repeats, blanks or holes
+				var vals []string
+				for _, m := range w.Clients[2].Out {
+					if m["type"] == "chathistory" {
+						vals = append(vals, s(m["value"]))
+					}
+				}
+				if len(vals) > 50 {
+					return "", &core.Violation{Signature: "C15/race/history-too-long", What: fmt.Sprint(len(vals))}
+				}
+				for k := range vals {
+					var n, prev int
+					if _, err := fmt.Sscanf(vals[k], "m%d", &n); err != nil {
+						return "", &core.Violation{Signature: "C15/race/history-entry-corrupted", What: fmt.Sprintf("history replay contains %q: %v", vals[k], vals)}
+					}
+					if k > 0 {
+						fmt.Sscanf(vals[k-1], "m%d", &prev)
+						if n != prev+1 {
+							return "", &core.Violation{Signature: "C15/race/history-entry-repeated-or-skipped", What: fmt.Sprintf("history replayed to a joiner while a message was posted to a full history is not a run of consecutive messages: %v", vals)}
+						}
+					}
+				}
+				return fmt.Sprint(len(vals)), nil
+			}},
 		{Name: "chat-vs-clearchat-vs-join", Groups: groups, Clients: 3, Setup: func(w *sig.World) {
 			joined(w)
 			w.Send(1, sig.Msg{"type": "chat", "source": "c1", "username": "bob", "value": "old"})
